@@ -87,6 +87,8 @@ type T struct {
 	libm    map[string]bool // functions that call libm directly
 	calls   map[string][]string
 	Errors  map[string]string
+	outIdx  map[string][]int // types.Func.FullName -> positions of out-pointer parameters
+	hasOuts map[string]bool  // full name -> the Lean definition returns extra Option components
 }
 
 func New(repo string) (*T, error) {
@@ -98,7 +100,7 @@ func New(repo string) (*T, error) {
 	return &T{repo: abs, fset: fset, imp: importer.ForCompiler(fset, "source", nil), pkgs: map[string]*pkgInfo{},
 		dirs: map[string]*pkgInfo{}, status: map[string]string{}, lean: map[string]string{}, mutates: map[string]bool{},
 		structs: map[string]string{}, lits: map[string]bool{"0": true, "1": true}, Errors: map[string]string{},
-		libm: map[string]bool{}, calls: map[string][]string{}}, nil
+		libm: map[string]bool{}, calls: map[string][]string{}, outIdx: map[string][]int{}, hasOuts: map[string]bool{}}, nil
 }
 
 const modPath = "github.com/unixpickle/model3d/"
@@ -471,6 +473,9 @@ type fnCtx struct {
 	loopK    []loopConts               // for unrolled loops: what continue / break run next
 	storable map[string]bool           // local slices that are provably unaliased (element stores allowed)
 	body     *ast.BlockStmt
+	outParam map[string]bool // out-pointer parameters (Option-valued)
+	outOrder []string
+	freshPtr map[string]bool // local pointers to fresh composite literals, never copied
 }
 
 type loopConts struct{ cont, brk func() (string, error) }
@@ -637,11 +642,24 @@ func (t *T) function(pi *pkgInfo, fd *ast.FuncDecl, fn string) (string, error) {
 	}
 	t.lean[fn] = leanName
 	t.mutates[fn] = fx.mutating
+	outSet := map[int]bool{}
+	for _, i := range t.outParamIdx(obj) {
+		outSet[i] = true
+	}
+	fx.outParam = map[string]bool{}
+	var outTypes []string
+	if fx.mutating && len(outSet) > 0 {
+		return "", fmt.Errorf("receiver-mutating method with out-pointer parameters is outside the subset")
+	}
 	for i := 0; i < sig.Params().Len(); i++ {
 		p := sig.Params().At(i)
 		lt, err := t.leanType(p.Type())
 		if err != nil {
 			return "", fmt.Errorf("parameter %s: %v", p.Name(), err)
+		}
+		if outSet[i] {
+			lt = "(Option " + lt + ")"
+			outTypes = append(outTypes, lt)
 		}
 		if _, isPtr := types.Unalias(p.Type()).(*types.Pointer); isPtr {
 			// pointer parameters are read-only in the subset; writes through them are rejected in assign()
@@ -657,6 +675,10 @@ func (t *T) function(pi *pkgInfo, fd *ast.FuncDecl, fn string) (string, error) {
 			return "", fmt.Errorf("duplicate parameter name")
 		}
 		fx.scope[nm] = p.Type()
+		if outSet[i] {
+			fx.outParam[nm] = true
+			fx.outOrder = append(fx.outOrder, nm)
+		}
 		params = append(params, fmt.Sprintf("(%s : %s)", ident(nm), lt))
 	}
 	var resT string
@@ -664,16 +686,30 @@ func (t *T) function(pi *pkgInfo, fd *ast.FuncDecl, fn string) (string, error) {
 	if fx.mutating {
 		resT, err = t.leanType(sig.Recv().Type())
 	} else if sig.Results().Len() == 0 {
-		return "", fmt.Errorf("function without results is outside the subset")
+		if len(outTypes) == 0 {
+			return "", fmt.Errorf("function without results is outside the subset")
+		}
 	} else {
 		resT, err = t.leanType(sig.Results())
 	}
 	if err != nil {
 		return "", fmt.Errorf("result: %v", err)
 	}
+	if len(outTypes) > 0 {
+		parts := outTypes
+		if resT != "" {
+			parts = append([]string{resT}, outTypes...)
+		}
+		resT = strings.Join(parts, " × ")
+		if len(parts) > 1 {
+			resT = "(" + resT + ")"
+		}
+		t.hasOuts[fn] = true
+	}
 	fx.resT = resT
 	fx.body = fd.Body
 	fx.storable = storableSlices(pi, fd)
+	fx.freshPtr = freshPtrLocals(pi, fd)
 	// named results are locals initialised to zero
 	pre := ""
 	var namedResults []string
@@ -692,6 +728,9 @@ func (t *T) function(pi *pkgInfo, fd *ast.FuncDecl, fn string) (string, error) {
 	fallOff := func() (string, error) {
 		if fx.mutating {
 			return ident(fx.recvName), nil
+		}
+		if fx.results.Len() == 0 && len(fx.outOrder) > 0 {
+			return fx.withOuts("", false), nil
 		}
 		return "", fmt.Errorf("control reaches the end of the function")
 	}
@@ -832,6 +871,9 @@ func (fx *fnCtx) block(stmts []ast.Stmt, k func() (string, error)) (string, erro
 			}
 			return fx.ret(ident(fx.recvName)), nil
 		}
+		if len(s.Results) == 0 && fx.results.Len() == 0 && len(fx.outOrder) > 0 {
+			return fx.ret(fx.withOuts("", false)), nil
+		}
 		if len(s.Results) == 0 {
 			// naked return with named results
 			var parts []string
@@ -842,7 +884,7 @@ func (fx *fnCtx) block(stmts []ast.Stmt, k func() (string, error)) (string, erro
 				}
 				parts = append(parts, ident(n))
 			}
-			return fx.ret(tuple(parts)), nil
+			return fx.ret(fx.withOuts(tuple(parts), true)), nil
 		}
 		var parts []string
 		for i, r := range s.Results {
@@ -856,7 +898,7 @@ func (fx *fnCtx) block(stmts []ast.Stmt, k func() (string, error)) (string, erro
 			}
 			parts = append(parts, e)
 		}
-		return fx.ret(tuple(parts)), nil
+		return fx.ret(fx.withOuts(tuple(parts), true)), nil
 	case *ast.BranchStmt:
 		if s.Label != nil || len(fx.loopPat) == 0 {
 			return "", fmt.Errorf("%s outside a folded loop (or labelled) is outside the subset", s.Tok)
@@ -947,6 +989,21 @@ func (fx *fnCtx) block(stmts []ast.Stmt, k func() (string, error)) (string, erro
 		call, ok := s.X.(*ast.CallExpr)
 		if !ok {
 			return "", fmt.Errorf("unsupported expression statement")
+		}
+		if callee, _ := fx.calleeOf(call); callee != nil && callee.Pkg() != nil && hasPrefix(callee.Pkg().Path()) && len(fx.t.outParamIdx(callee)) > 0 {
+			pat := ""
+			if callee.Type().(*types.Signature).Results().Len() > 0 {
+				pat = "_"
+			}
+			line, _, err := fx.outCall(call, pat)
+			if err != nil {
+				return "", err
+			}
+			r, err := rest()
+			if err != nil {
+				return "", err
+			}
+			return line + "\n" + r, nil
 		}
 		sel, ok := call.Fun.(*ast.SelectorExpr)
 		if !ok {
@@ -1385,6 +1442,43 @@ func (fx *fnCtx) assign(a *ast.AssignStmt) (string, error) {
 	if a.Tok != token.DEFINE && a.Tok != token.ASSIGN {
 		return "", fmt.Errorf("unsupported assignment operator %s", a.Tok)
 	}
+	if len(a.Rhs) == 1 {
+		if call, isCall := a.Rhs[0].(*ast.CallExpr); isCall {
+			if callee, _ := fx.calleeOf(call); callee != nil && callee.Pkg() != nil && hasPrefix(callee.Pkg().Path()) && len(fx.t.outParamIdx(callee)) > 0 {
+				nonNil := false
+				for _, j := range fx.t.outParamIdx(callee) {
+					if j < len(call.Args) && !isNilIdent(call.Args[j]) {
+						nonNil = true
+					}
+				}
+				if nonNil {
+					// v := f(x, &u): the ordinary results go to the left-hand side, the out values are re-bound
+					tup, _ := fx.pi.info.Types[call].Type.(*types.Tuple)
+					var ids []string
+					for i, l := range a.Lhs {
+						id, ok := l.(*ast.Ident)
+						if !ok {
+							return "", fmt.Errorf("unsupported target for a call with out-pointer arguments")
+						}
+						if id.Name != "_" {
+							var ty types.Type
+							if tup != nil && i < tup.Len() {
+								ty = tup.At(i).Type()
+							} else {
+								ty = fx.pi.info.Types[call].Type
+							}
+							if err := fx.declare(id, a.Tok, ty); err != nil {
+								return "", err
+							}
+						}
+						ids = append(ids, ident(id.Name))
+					}
+					line, _, err := fx.outCall(call, tuple(ids))
+					return line, err
+				}
+			}
+		}
+	}
 	if len(a.Lhs) > 1 && len(a.Rhs) == 1 {
 		// a, b := f()
 		val, err := fx.exprAs(a.Rhs[0], nil)
@@ -1392,9 +1486,19 @@ func (fx *fnCtx) assign(a *ast.AssignStmt) (string, error) {
 			return "", err
 		}
 		var ids []string
+		var after []string
 		tv := fx.pi.info.Types[a.Rhs[0]]
 		tup, _ := tv.Type.(*types.Tuple)
 		for i, l := range a.Lhs {
+			if st, isStar := l.(*ast.StarExpr); isStar {
+				// *out, _ = f(): store through an out-pointer parameter
+				if pid, ok := st.X.(*ast.Ident); ok && fx.outParam[pid.Name] {
+					tmp := fmt.Sprintf("_t%d", i)
+					ids = append(ids, tmp)
+					after = append(after, fmt.Sprintf("let %s := Option.map (fun _ => %s) %s", ident(pid.Name), tmp, ident(pid.Name)))
+					continue
+				}
+			}
 			id, ok := l.(*ast.Ident)
 			if !ok {
 				return "", fmt.Errorf("unsupported multi-assignment target")
@@ -1411,7 +1515,11 @@ func (fx *fnCtx) assign(a *ast.AssignStmt) (string, error) {
 			}
 			ids = append(ids, ident(id.Name))
 		}
-		return fmt.Sprintf("let %s := %s", tuple(ids), val), nil
+		line := fmt.Sprintf("let %s := %s", tuple(ids), val)
+		for _, l := range after {
+			line += "\n" + l
+		}
+		return line, nil
 	}
 	if len(a.Lhs) != len(a.Rhs) {
 		return "", fmt.Errorf("unsupported assignment shape")
@@ -1478,6 +1586,14 @@ func (fx *fnCtx) assign(a *ast.AssignStmt) (string, error) {
 	case *ast.StarExpr:
 		// *m = value (pointer receiver of a mutating method)
 		id, ok := l.X.(*ast.Ident)
+		if ok && fx.outParam[id.Name] {
+			pt := types.Unalias(fx.scope[id.Name]).(*types.Pointer)
+			v, err := fx.exprAs(rhs, pt.Elem())
+			if err != nil {
+				return "", err
+			}
+			return fmt.Sprintf("let %s := Option.map (fun _ => %s) %s", ident(id.Name), v, ident(id.Name)), nil
+		}
 		if !ok || id.Name != fx.recvName || !fx.mutating {
 			return "", fmt.Errorf("store through a pointer other than the receiver")
 		}
@@ -1563,7 +1679,7 @@ func (fx *fnCtx) update(lhs, rhs ast.Expr) (string, error) {
 			if !inScope {
 				return "", fmt.Errorf("assignment through unknown variable %s", id.Name)
 			}
-			if _, isPtr := types.Unalias(ty).(*types.Pointer); isPtr && !(id.Name == fx.recvName && fx.mutating) {
+			if _, isPtr := types.Unalias(ty).(*types.Pointer); isPtr && !(id.Name == fx.recvName && fx.mutating) && !fx.freshPtr[id.Name] {
 				return "", fmt.Errorf("store through pointer %s is outside the subset", id.Name)
 			}
 			v, err := fx.exprAs(rhs, fx.pi.info.Types[lhs].Type)
@@ -1618,13 +1734,24 @@ func (fx *fnCtx) update(lhs, rhs ast.Expr) (string, error) {
 			if !ok {
 				return "", fmt.Errorf("assignment through unknown variable %s", x.Name)
 			}
-			if _, isPtr := types.Unalias(ty).(*types.Pointer); isPtr && !(x.Name == fx.recvName && fx.mutating) {
+			if _, isPtr := types.Unalias(ty).(*types.Pointer); isPtr && !(x.Name == fx.recvName && fx.mutating) && !fx.freshPtr[x.Name] && !fx.outParam[x.Name] {
 				return "", fmt.Errorf("store through pointer %s is outside the subset", x.Name)
 			}
 			want := fx.pi.info.Types[lhs].Type
 			v, err := fx.exprAs(rhs, want)
 			if err != nil {
 				return "", err
+			}
+			if fx.outParam[x.Name] {
+				// p.F = v through an out-pointer parameter
+				var buildO func(prefix string, p []string) string
+				buildO = func(prefix string, p []string) string {
+					if len(p) == 1 {
+						return fmt.Sprintf("{ %s with %s := %s }", prefix, p[0], v)
+					}
+					return fmt.Sprintf("{ %s with %s := %s }", prefix, p[0], buildO(prefix+"."+p[0], p[1:]))
+				}
+				return fmt.Sprintf("let %s := Option.map (fun _o => %s) %s", ident(x.Name), buildO("_o", path), ident(x.Name)), nil
 			}
 			// nested `with`: { r with a := { r.a with b := v } }
 			var build func(prefix string, p []string) string
@@ -1791,7 +1918,15 @@ func (fx *fnCtx) exprAs(e ast.Expr, want types.Type) (string, error) {
 			}
 			return fmt.Sprintf("(%d : Int)", c), nil
 		}
-		if _, ok := fx.scope[x.Name]; ok {
+		if ty, ok := fx.scope[x.Name]; ok {
+			if fx.outParam[x.Name] {
+				// the value an out-pointer parameter points to (Go panics when it is nil)
+				z, err := fx.t.zeroValue(types.Unalias(ty).(*types.Pointer).Elem())
+				if err != nil {
+					return "", err
+				}
+				return "(Option.getD " + ident(x.Name) + " " + z + ")", nil
+			}
 			return ident(x.Name), nil
 		}
 		if x.Name == "true" || x.Name == "false" {
@@ -1947,6 +2082,23 @@ func (fx *fnCtx) binary(x *ast.BinaryExpr, want types.Type) (string, error) {
 	}
 	if b, ok := opd.(*types.Basic); ok && b.Info()&types.IsUntyped != 0 && want != nil {
 		opd = want
+	}
+	if x.Op == token.EQL || x.Op == token.NEQ {
+		var pid *ast.Ident
+		if id, ok := x.X.(*ast.Ident); ok && isNilIdent(x.Y) {
+			pid = id
+		} else if id, ok := x.Y.(*ast.Ident); ok && isNilIdent(x.X) {
+			pid = id
+		}
+		if pid != nil {
+			if !fx.outParam[pid.Name] {
+				return "", fmt.Errorf("comparison of %s with nil is outside the subset", pid.Name)
+			}
+			if x.Op == token.NEQ {
+				return "(Option.isSome " + ident(pid.Name) + ")", nil
+			}
+			return "(!(Option.isSome " + ident(pid.Name) + "))", nil
+		}
 	}
 	switch x.Op {
 	case token.LAND, token.LOR:
@@ -2283,6 +2435,22 @@ func (t *T) ensureFunc(f *types.Func) (lean string, mutates bool, err error) {
 }
 
 func (fx *fnCtx) callArgs(callee *types.Func, args []ast.Expr) (string, error) {
+	if outIdx := fx.t.outParamIdx(callee); len(outIdx) > 0 {
+		// expression position: only `nil` may be passed for the out-pointer parameters; the value is the first component
+		text, binds, err := fx.outArgs(callee, args, outIdx)
+		if err != nil {
+			return "", err
+		}
+		for _, b := range binds {
+			if b.kind != "nil" {
+				return "", fmt.Errorf("call with a non-nil out-pointer argument in expression position")
+			}
+		}
+		if callee.Type().(*types.Signature).Results().Len() == 0 {
+			return "", fmt.Errorf("call without results in expression position")
+		}
+		return text + "\x00", nil // marker: callText projects the first component
+	}
 	sig := callee.Type().(*types.Signature)
 	if sig.Variadic() {
 		return "", fmt.Errorf("variadic call")
@@ -2349,7 +2517,7 @@ func (fx *fnCtx) call(x *ast.CallExpr, want types.Type) (string, error) {
 				if err != nil {
 					return "", err
 				}
-				return "(" + ln + args + ")", nil
+				return callText(ln + args), nil
 			}
 		}
 		sel, ok := fx.pi.info.Selections[f]
@@ -2375,7 +2543,7 @@ func (fx *fnCtx) call(x *ast.CallExpr, want types.Type) (string, error) {
 		if err != nil {
 			return "", err
 		}
-		return "(" + ln + " " + recv + args + ")", nil
+		return callText(ln + " " + recv + args), nil
 	case *ast.Ident:
 		if b, isBuiltin := fx.pi.info.Uses[f].(*types.Builtin); isBuiltin && b.Name() == "len" && len(x.Args) == 1 {
 			at := types.Unalias(fx.pi.info.Types[x.Args[0]].Type)
@@ -2462,9 +2630,18 @@ func (fx *fnCtx) call(x *ast.CallExpr, want types.Type) (string, error) {
 		if err != nil {
 			return "", err
 		}
-		return "(" + ln + args + ")", nil
+		return callText(ln + args), nil
 	}
 	return "", fmt.Errorf("unsupported call form %T", x.Fun)
+}
+
+// callText renders an application; a trailing marker (set by callArgs for callees with out-pointer
+// parameters that all receive nil) selects the ordinary result.
+func callText(app string) string {
+	if strings.HasSuffix(app, "\x00") {
+		return "(" + strings.TrimSuffix(app, "\x00") + ").1"
+	}
+	return "(" + app + ")"
 }
 
 func (fx *fnCtx) mathCall(name string, args []ast.Expr) (string, error) {
@@ -2753,6 +2930,9 @@ func (t *T) emitTable(roots []Root) (string, []TableEntry) {
 		fd := pi.funcs[key]
 		obj, _ := pi.info.Defs[fd.Name].(*types.Func)
 		sig := obj.Type().(*types.Signature)
+		if t.hasOuts[fn] {
+			continue // Option-valued parameters: validated through their callers
+		}
 		idx := 0
 		var args []string
 		ok := true
